@@ -257,9 +257,19 @@ def afterGroup (w : World) (g : GroupOut) : World :=
 
 def resOf (s : Status) : Res := if s = .died then .died else .failed
 
-/-- the re-check after loading: `module._magic_number != MAGIC_NUMBER or module._template_filename != filename` -/
+/-- File names are numbers: name `n` stands for the spelling number `n % 2` of the normalised path number
+`n / 2` - two names with the same `normOf` are two spellings with the same `os.path.normpath` (`./tmpl//x.html`
+and `tmpl/x.html`); names of different files, but also a symlinked, or a relative and an absolute spelling of
+one file, have different `normOf`. -/
+def normOf (n : Nat) : Nat := n / 2
+
+/-- the two names differ as the code compares them: their `os.path.normpath` (`fileCmpNormalised`), or the raw strings -/
+def namesDiffer (a b : Nat) : Bool := if fileCmpNormalised then normOf a != normOf b else a != b
+
+/-- the re-check after loading: `module._magic_number != MAGIC_NUMBER or
+os.path.normpath(module._template_filename) != os.path.normpath(filename)` -/
 def needsRegen (w : World) (c : Content) : Bool :=
-  (magicRecheck && c.magic != magicNumber) || (fileRecheck && c.file != w.fileId)
+  (magicRecheck && c.magic != magicNumber) || (fileRecheck && namesDiffer c.file w.fileId)
 
 /-- second half of `_compile_from_file`: load, magic re-check, rewrite, reload -/
 def phase2 (wr : Writer) (w1 : World) (p : Plan) (left : Option Nat) (acts1 : List Act) (n1 : Nat)
@@ -338,10 +348,11 @@ def HistOkFrom : World → List HOp → Prop
   | w, op :: r => op.okAt w ∧ HistOkFrom (stepH w op) r
 
 /-- the property's "a (re)write is due": missing, older than the source, other magic number, or not generated
-from this template file at all (another file name maps to the same module path) -/
+from this template file at all (another file, whose name maps to the same module path; file identity up to
+`os.path.normpath` of the names) -/
 def Due (w : World) : Prop :=
   w.fs .mod = none ∨ ∃ f, w.fs .mod = some f ∧
-    (f.mtime < w.srcMtime ∨ f.content.magic ≠ magicNumber ∨ f.content.file ≠ w.fileId)
+    (f.mtime < w.srcMtime ∨ f.content.magic ≠ magicNumber ∨ normOf f.content.file ≠ normOf w.fileId)
 
 /-- the bytecode cache agrees with the file whenever its key matches -/
 def PycCoherent (w : World) : Prop :=
